@@ -13,14 +13,17 @@ import (
 //	             and (the allow list is empty or some allow entry contains it)
 //
 // The peer is the TCP peer (http.Request.RemoteAddr), never a header. IPv4-mapped IPv6 peers are the
-// IPv4 address they map. A malformed list entry contains nothing; an allow list that was configured
+// IPv4 address they map, and so are single-address entries written in IPv4-mapped form (CIDR entries in
+// that form are not documented and not generated). A malformed list entry contains nothing; an allow list that was configured
 // with entries is not "empty" because some of them are malformed.
 
 // Entry is one configured list entry.
 type Entry struct {
-	Text string `json:"text"`
-	OK   bool   `json:"well_formed"`
-	pfx  netip.Prefix
+	Text    string `json:"text"`
+	OK      bool   `json:"well_formed"`
+	Mapped  bool   `json:"v4_mapped_form,omitempty"` // single address written as ::ffff:a.b.c.d
+	pfx     netip.Prefix
+	nothing bool // matches no address (used to compute the region of a finding)
 }
 
 // wellFormed builds the Entry of a CIDR or single address that is well formed by construction.
@@ -32,7 +35,11 @@ func wellFormed(text string) Entry {
 	if err != nil || a.Zone() != "" {
 		panic("harness: entry generator produced " + text)
 	}
-	return Entry{Text: text, OK: true, pfx: netip.PrefixFrom(a, a.BitLen())}
+	// A single-address entry means exactly that address (docs: "Single IP: 192.168.1.100"); written in
+	// IPv4-mapped form it is the IPv4 address it maps, like an IPv4-mapped peer.
+	mapped := a.Is4In6()
+	a = a.Unmap()
+	return Entry{Text: text, OK: true, Mapped: mapped, pfx: netip.PrefixFrom(a, a.BitLen())}
 }
 
 func malformed(text string) Entry { return Entry{Text: text} }
@@ -63,7 +70,7 @@ func texts(es []Entry) []string {
 
 func containsAddr(es []Entry, a netip.Addr) bool {
 	for _, e := range es {
-		if e.OK && e.pfx.Contains(a) {
+		if e.OK && !e.nothing && e.pfx.Contains(a) {
 			return true
 		}
 	}
@@ -154,3 +161,54 @@ func (p Policy) AllowsText(s string) bool {
 	}
 	return p.AllowsAddr(a)
 }
+
+// HasMapped: some entry is a single address in IPv4-mapped spelling.
+func (p Policy) HasMapped() bool {
+	for _, e := range append(append([]Entry{}, p.Allow...), p.Deny...) {
+		if e.Mapped {
+			return true
+		}
+	}
+	return false
+}
+
+// mapEntries returns the policy with every IPv4-mapped single-address entry replaced by f(entry).
+func (p Policy) mapEntries(f func(Entry) Entry) Policy {
+	conv := func(es []Entry) []Entry {
+		out := make([]Entry, 0, len(es))
+		for _, e := range es {
+			if e.Mapped {
+				e = f(e)
+			}
+			out = append(out, e)
+		}
+		return out
+	}
+	return Policy{Allow: conv(p.Allow), Deny: conv(p.Deny)}
+}
+
+// Respelled: the same policy with the IPv4-mapped entries written as plain IPv4 addresses.
+func (p Policy) Respelled() Policy {
+	return p.mapEntries(func(e Entry) Entry { return wellFormed(e.pfx.Addr().String()) })
+}
+
+// MappedEntryDecides: the region of the finding "v4-mapped-entry-misparsed", computed from the
+// reference only: the policy has an IPv4-mapped single-address entry and either the verdict for this
+// peer depends on that entry matching its IPv4 address (it differs from the verdict of the same lists
+// with those entries matching nothing), or the peer is a plain IPv6 address (which a reading of the
+// entry as an IPv6 network could catch).
+func (p Policy) MappedEntryDecides(remote string) bool {
+	if !p.HasMapped() {
+		return false
+	}
+	v, a, parsed := p.PeerVerdict(remote)
+	if parsed && a.Is6() && !a.Is4In6() {
+		return true
+	}
+	dead := p.mapEntries(func(e Entry) Entry { return e.asNothing() })
+	v2, _, _ := dead.PeerVerdict(remote)
+	return v != v2
+}
+
+// asNothing: a well-formed entry that contains no address (still counts for "allow list not empty").
+func (e Entry) asNothing() Entry { e.nothing = true; return e }
